@@ -43,6 +43,8 @@ PT_FN = 'fun a => if wf_fixarr a then Some (pt_measures a) else None'
 BD_FN = ("fun '(k, a, b) => eqbc (la_view (match k with KPolygon => polygon_boundary a "
          "| _ => multipolygon_boundary a end)) (la_view b)")
 BD_TY = 'kind * listarr * listarr'
+SB_FN = ("fun '(k, s, b) => eqbc (sc_view (match k with KPolygon => sc_polygon_boundary s "
+         "| _ => sc_multipolygon_boundary s end)) (sc_view b)")
 
 
 class Ctx:
@@ -51,10 +53,11 @@ class Ctx:
         self.sc = U.Batch(IMPORTS, SC_FN, ARR_TY, SC_RES)
         self.pt = U.Batch(IMPORTS, PT_FN, 'fixarr', ARR_RES)
         self.bd = U.Batch(IMPORTS, BD_FN, BD_TY, 'bool')
+        self.sb = U.Batch(IMPORTS, SB_FN, BD_TY, 'bool')
 
     def flush(self, rep):
         n = 0
-        for b in (self.arr, self.sc, self.pt, self.bd):
+        for b in (self.arr, self.sc, self.pt, self.bd, self.sb):
             n += b.flush(rep)
         return n
 
@@ -84,15 +87,10 @@ def length_result(rep, f, rings, kind, st, meta, form):
         return C.Some((terms, C.Some(int(f))))
     want = math.fsum(math.sqrt(t) for t in terms)
     if not abs(f - want) <= 1e-12 * want:
-        if st == 'float32' and form == 'array' and abs(f - want) <= 1e-5 * want:
-            rep.violation('length-float32-rounding',
-                          f'{kind} array of subtype float32: length {f!r} differs from the exact '
-                          f'{want!r} by more than 1e-12 relative (sqrt evaluated in float32)',
-                          {**meta, 'impl_length': f, 'exact': want, 'terms': terms})
-        else:
-            rep.violation(f'length-differs:{kind}',
-                          f'{kind} {form} length {f!r} differs from sum of segment lengths {want!r}',
-                          {**meta, 'impl_length': f, 'exact': want, 'terms': terms})
+        rep.violation(f'length-differs:{kind}',
+                      f'{kind} {form} length {f!r} (subtype {st}) differs from the sum of segment '
+                      f'lengths {want!r} by more than 1e-12 relative',
+                      {**meta, 'impl_length': f, 'exact': want, 'terms': terms})
     return C.Some((terms, None))
 
 
@@ -237,15 +235,33 @@ def check_scalar(rep, ctx, kind, e, d, meta, arr_len=None, arr_area=None):
                f'measures-differ:{kind}-scalar', f'{kind} scalar length/area differ from the model',
                meta)
     if arr_len is not None:
-        # scalar and array forms agree: area exactly; length exactly unless the array is float32
-        ok_a = _same(a, arr_area)
-        ok_l = _same(l, arr_len) or (meta['subtype'] == 'float32'
-                                     and abs(l - arr_len) <= 1e-5 * abs(l))
-        if not (ok_a and ok_l):
+        # scalar and array forms agree exactly (same kernel, same float64 operations)
+        if not (_same(a, arr_area) and _same(l, arr_len)):
             rep.violation(f'scalar-array-differ:{kind}',
                           f'{kind}: arr[i].length/area ({l!r}, {a!r}) != arr.length/area[i] '
                           f'({arr_len!r}, {arr_area!r})', meta)
     rep.count('scalar')
+    if kind in ('polygon', 'multipolygon'):
+        from spatialpandas.geometry import MultiLine
+        try:
+            eb = e.boundary
+        except Exception as ex:
+            rep.violation(f'raises:{kind}-scalar-boundary:{type(ex).__name__}',
+                          f'{type(e).__name__}.boundary raised {type(ex).__name__}',
+                          {**meta, 'repro': f'{type(e).__name__}({d!r}).boundary'})
+            return
+        if not isinstance(eb, MultiLine):
+            rep.violation(f'boundary-type:{kind}-scalar', 'scalar boundary is not a MultiLine', meta)
+            return
+        got = eb.data.as_py()
+        if not _nan_equal(got, rs) or not _same(eb.length, l):
+            rep.violation(f'boundary-rings:{kind}-scalar', 'scalar boundary does not hold exactly '
+                          'the element\'s rings, or its length differs',
+                          {**meta, 'boundary': got, 'boundary_length': float(eb.length)})
+        ctx.sb.add((K, U.export_scalar(e), U.export_scalar(eb)), True,
+                   f'boundary-differs:{kind}-scalar',
+                   f'{kind} scalar boundary buffers differ from the model', meta)
+        rep.count('scalar_boundary')
 
 
 def check_boundary(rep, ctx, kind, arr, rec, dec, L, meta):
@@ -275,24 +291,6 @@ def check_boundary(rep, ctx, kind, arr, rec, dec, L, meta):
         rep.violation(f'boundary-length:{kind}', 'length(boundary) != length',
                       {**meta, 'boundary_length': list(b.length), 'length': list(L)})
     rep.count('boundary')
-    # scalar boundary
-    for i in range(len(arr)):
-        e = arr[i]
-        if e is None:
-            continue
-        try:
-            eb = e.boundary
-        except Exception as ex:
-            rep.violation(f'raises:{kind}-scalar-boundary:{type(ex).__name__}',
-                          f'{type(e).__name__}.boundary raised {type(ex).__name__}',
-                          {**meta, 'row': i, 'repro': f'{type(e).__name__}({dec[i]!r}).boundary'})
-            continue
-        got = eb.data.as_py()
-        if not isinstance(eb, MultiLine) or not _nan_equal(got, want[i]) \
-                or not _same(eb.length, e.length):
-            rep.violation(f'boundary-rings:{kind}-scalar', 'scalar boundary does not hold exactly '
-                          'the element\'s rings', {**meta, 'row': i, 'boundary': got})
-        rep.count('scalar_boundary')
 
 
 def _nan_equal(a, b):
@@ -339,16 +337,35 @@ def element_space(rng, kind, tier, with_nan):
     raise ValueError(kind)
 
 
+# always-run corpus: witnesses of the repaired defects and hand-picked corner cases
+CORPUS = [
+    ('line', 'float32', [[0, 0, 1, 1, 3, 2]], []),                    # float32 rounding (repaired)
+    ('polygon', 'float32', [[[0, 0, 1, 3, 3, 1, 0, 0]]], []),
+    ('multipolygon', 'float64', [[[[0, 0, 1, 0, 1, 1, 0, 0]]]], []),  # scalar boundary raised (repaired)
+    ('multipolygon', 'float64', [[[[0, 0, 2, 0, 2, 2, 0, 0]]], None, [[[5, 5, 7, 5, 6, 8, 5, 5]]]],
+     [('slice', 1, 3)]),                                              # boundary keeps missing (D7)
+    ('point', 'float64', [None, [1, 2]], []), ('multipoint', 'float64', [None, [1, 2]], []),
+    ('line', 'float64', [None, [1, 2, 3, 4]], []), ('ring', 'float64', [None, [1, 2, 3, 4, 1, 2]], []),
+    ('multiline', 'float64', [None, [[1, 2, 3, 4]]], []),             # missing -> NaN (repaired)
+    ('polygon', 'float64', [[[0, 0, 1, 0, 1, 1, 0, 0]], []], []),
+    ('multipolygon', 'float64', [[[[0, 0, 1, 0, 1, 1, 0, 0]], []]], []),
+    ('multipolygon', 'float64', [[], [[]], [[[]]], None], []),
+    ('polygon', 'int16', [[[0, 0, 30000, 0, 30000, 30000, 0, 0]]], []),   # no int16 wrap-around
+]
+
+
 def gen_arrays(rep, tier):
     rng = rep.rng
     quick = tier == 'quick'
+    for kind, st, els, desc in CORPUS:
+        yield kind, st, els, desc
     for kind in G.KINDS:
         for st in G.SUBTYPES:
             isf = st.startswith('float')
             space = element_space(rng, kind, tier, isf)
             chunks = [space[i:i + 3] for i in range(0, len(space), 3)]
             if st != 'float64':
-                chunks = rng.sample(chunks, max(3, len(chunks) // (8 if quick else 1)))
+                chunks = rng.sample(chunks, min(len(chunks), max(3, len(chunks) // (8 if quick else 1))))
             for ch in chunks:
                 els = list(ch)
                 if rng.random() < 0.5:
@@ -405,11 +422,15 @@ def run(rep):
                 '>= 2 vertices; distinct = distinct (kind, subtype, exported buffers)')
     ctx = Ctx()
     for kind, st, els, nder in gen_arrays(rep, tier):
-        check_array(rep, ctx, kind, st, els, nder)
+        if isinstance(nder, list):
+            check_array(rep, ctx, kind, st, els, desc=nder)
+        else:
+            check_array(rep, ctx, kind, st, els, nder)
     direct_scalars(rep, ctx)
     ctx.flush(rep)
     rep.extra['coq_cases'] = {'array': len(ctx.arr.cases), 'scalar': len(ctx.sc.cases),
-                              'point': len(ctx.pt.cases), 'boundary': len(ctx.bd.cases)}
+                              'point': len(ctx.pt.cases), 'boundary': len(ctx.bd.cases),
+                              'scalar_boundary': len(ctx.sb.cases)}
 
 
 def replay(rep, rp):
